@@ -10,6 +10,7 @@
 From Coq Require Import ZArith List Bool.
 Import ListNotations.
 From CR Require Import Base.G2Fold Model.Network Proofs.Network.
+From CR Require Import Model.NetworkSrc Gen.Src_network Proofs.SrcNetwork.
 Open Scope Z_scope.
 
 (* what WF says, reference by reference: every predecessor / successor / adjacency, every incoming / successor /
@@ -159,6 +160,37 @@ Example C10_nonvacuous :
   hang [1] true demo_net = ([], []) /\ hang [1; 3] true demo_net = ([101], [200]).
 Proof. exact demo_run. Qed.
 
+(* ---- the model is the source: the three cleanup_*_references methods are parsed, assignment by assignment, into rule
+   lists, and the four remove_* methods into (dictionary, where the cleanup call stands), on every run
+   (Gen/Src_network.v, harness/props/c10_src.py).  Run by the interpreter of Model/NetworkSrc.v they are the model's
+   functions on every network; with C10_remove_* above: the parsed remove methods compute [restrict]. *)
+Theorem C10_cleanup_is_source : forall n,
+  run_cleanup src_cleanup_lanelets n = cleanup_lanelets n /\ run_cleanup src_cleanup_signs n = cleanup_signs n /\
+  run_cleanup src_cleanup_lights n = cleanup_lights n.
+Proof.
+  intro n. exact (conj (src_cleanup_lanelets_is_model n) (conj (src_cleanup_signs_is_model n) (src_cleanup_lights_is_model n))).
+Qed.
+Theorem C10_remove_is_source : forall i n,
+  run_remove src_remove_lanelet (run_cleanup src_cleanup_lanelets) i n = net_remove_lanelet i n /\
+  run_remove src_remove_sign (run_cleanup src_cleanup_signs) i n = net_remove_sign i n /\
+  run_remove src_remove_light (run_cleanup src_cleanup_lights) i n = net_remove_light i n /\
+  run_remove src_remove_inter (fun m => m) i n = net_remove_inter i n.
+Proof.
+  intros i n. exact (conj (src_remove_lanelet_is_model i n) (conj (src_remove_sign_is_model i n)
+                      (conj (src_remove_light_is_model i n) (src_remove_inter_is_model i n)))).
+Qed.
+Theorem C10_source_remove_lanelet_is_restrict : forall i n, WF n ->
+  run_remove src_remove_lanelet (run_cleanup src_cleanup_lanelets) i n = restrict (neq i) all all all n.
+Proof. intros i n H. rewrite src_remove_lanelet_is_model. exact (C10_remove_lanelet i n H). Qed.
+(* non-vacuity: the parsed programs, run on a three-lanelet network, remove lanelet 2 and every reference to it *)
+Example C10_source_nonvacuous :
+  let l i p s a := mkL i p s a (match a with Some _ => Some true | None => None end) None None [] [] None [] 0 in
+  let n := mkN [l 1 [] [2] (Some 2); l 2 [1] [3] None; l 3 [2] [] None] [] []
+               [mkX 9 [mkI 1 [1] [] [2] [] None] [2; 3]] in
+  run_remove src_remove_lanelet (run_cleanup src_cleanup_lanelets) 2 n
+  = mkN [l 1 [] [] None; l 3 [] [] None] [] [] [mkX 9 [mkI 1 [1] [] [] [] None] [3]].
+Proof. vm_compute. reflexivity. Qed.
+
 Print Assumptions C10_wf_no_dangling.
 Print Assumptions C10_wfb_decides_wf.
 Print Assumptions C10_restrict_elements.
@@ -190,3 +222,7 @@ Print Assumptions C10_apply_wf.
 Print Assumptions C10_reachable_wf.
 Print Assumptions C10_reachable_only_loses.
 Print Assumptions C10_nonvacuous.
+Print Assumptions C10_cleanup_is_source.
+Print Assumptions C10_remove_is_source.
+Print Assumptions C10_source_remove_lanelet_is_restrict.
+Print Assumptions C10_source_nonvacuous.
